@@ -448,7 +448,7 @@ func hpackRun() {
 				break
 			}
 		}
-		vh.Emit(res)
+		emitRes(res)
 	})
 }
 
@@ -541,10 +541,12 @@ func nzr(e []hpRep) []hpRep {
 // stdout = one event per operation.
 func hpackRecord() {
 	type script struct {
-		ID     int    `json:"id"`
-		Cases  int    `json:"cases"`
-		Ops    int    `json:"ops"`
-		Script []hpOp `json:"script"`
+		ID       int    `json:"id"`
+		Cases    int    `json:"cases"`
+		Ops      int    `json:"ops"`
+		Boundary bool   `json:"boundary"` // add the integer-coding boundary scripts
+		Full     bool   `json:"full"`     // thorough tier: whole ranges instead of windows
+		Script   []hpOp `json:"script"`
 	}
 	cid := 0
 	vh.EachCase(func(line []byte) {
@@ -559,6 +561,9 @@ func hpackRecord() {
 		} else {
 			for i := 0; i < sc.Cases; i++ {
 				scripts = append(scripts, recScript(vh.Rand(int64(1000+i)), sc.Ops))
+			}
+			if sc.Boundary {
+				scripts = append(scripts, boundaryScripts(vh.Rand(999), sc.Full)...)
 			}
 		}
 		for _, ops := range scripts {
@@ -609,7 +614,8 @@ func hpackRecord() {
 func recScript(r *rand.Rand, n int) []hpOp {
 	var ops []hpOp
 	var pool []string
-	sizes := []uint32{0, 1, 31, 32, 33, 40, 64, 100, 128, 200, 300, 512, 1000, 4096, 4097, 8192, 65536}
+	sizes := []uint32{0, 1, 30, 31, 32, 33, 40, 64, 100, 128, 158, 159, 160, 200, 300, 512, 1000, 4096, 4097, 8192,
+		16414, 16415, 16416, 65536}
 	small := r.Intn(3) == 0
 	if small { // start with a small table so that eviction happens all the time
 		ops = append(ops, hpOp{Op: "setmax", Arg: sizes[4+r.Intn(7)]})
@@ -633,4 +639,134 @@ func recScript(r *rand.Rand, n int) []hpOp {
 		}
 	}
 	return ops
+}
+
+// ---------------------------------------------------------------- integer-coding boundaries
+// RFC 7541 5.1: an integer with an N-bit prefix changes its octet count at 2^N-1, 2^N-1+128,
+// 2^N-1+16384.  Every integer the encoder writes - string lengths (N = 7), indexed fields (7),
+// name indices of literals (6 with indexing, 4 without), table sizes (5) - is driven across
+// those points: bnd(N) = 2^N-2, 2^N-1, 2^N-1+127, +128, +129, +16383, +16384, +16385.
+
+func bnd(n uint) []int {
+	m := 1<<n - 1
+	return []int{m - 1, m, m + 127, m + 128, m + 129, m + 16383, m + 16384, m + 16385}
+}
+
+func strOf(r *rand.Rand, charset string, n int) string {
+	b := make([]byte, n)
+	for i := range b {
+		b[i] = charset[r.Intn(len(charset))]
+	}
+	return string(b)
+}
+
+func boundaryScripts(r *rand.Rand, full bool) [][]hpOp {
+	const raw8 = "&*,;XZ"       // 8-bit Huffman codes: the raw form is used, encoded length = length
+	const huff6 = "bdfghlmnpru" // 6-bit codes: encoded length = ceil(6n/8)
+	const huff5 = "aceiost012"  // 5-bit codes: encoded length = ceil(5n/8)
+	fld := func(n, v string, s bool) hpOp { return hpOp{Op: "field", F: hpField{N: n, V: v, S: s}} }
+	end := hpOp{Op: "end"}
+	var out [][]hpOp
+
+	// 1. string lengths (7-bit prefix), values and names, raw and Huffman
+	var a []hpOp
+	encLens := bnd(7)
+	for _, e := range encLens {
+		if e > 300 && !full && e != 127+16384 {
+			continue
+		}
+		big := e > 4000
+		// raw: length e exactly; Huffman: every length whose encoded length is e
+		a = append(a, fld("x-raw", strOf(r, raw8, e), big), end)
+		for _, cs := range []struct {
+			set  string
+			bits int
+		}{{huff6, 6}, {huff5, 5}} {
+			if big && !full {
+				continue
+			}
+			for n := (e*8 - 7 + cs.bits - 1) / cs.bits; (n*cs.bits+7)/8 <= e; n++ {
+				if (n*cs.bits+7)/8 == e {
+					a = append(a, fld("x-huff", strOf(r, cs.set, n), big || r.Intn(2) == 0))
+					if !full {
+						break
+					}
+				}
+			}
+			a = append(a, end)
+		}
+		if !big {
+			a = append(a, fld(strOf(r, "abcdefghijklmnopqrstuvwxyz-", e), "v", r.Intn(2) == 0), end)
+		}
+	}
+	out = append(out, a)
+
+	// 2. table sizes (5-bit prefix), alone and as minimum followed by a larger final size
+	var b []hpOp
+	b = append(b, hpOp{Op: "setlimit", Arg: 65536})
+	for _, v := range bnd(5) {
+		b = append(b, hpOp{Op: "setmax", Arg: uint32(v)}, fld("x-a", strOf(r, huff5, 3), false), end)
+		b = append(b, hpOp{Op: "setmax", Arg: uint32(v)}, hpOp{Op: "setmax", Arg: 20000},
+			fld("x-b", strOf(r, huff5, 3), false), fld("x-a", "1", false), end)
+	}
+	out = append(out, b)
+
+	// 3. indices: a ladder of K single-use names, then references to every rung
+	//    7-bit (indexed field), 4-bit (never indexed, name index), 6-bit (incremental, name index)
+	K := 200
+	var c []hpOp
+	c = append(c, hpOp{Op: "setlimit", Arg: 65536}, hpOp{Op: "setmax", Arg: 16384})
+	name := func(i int) string { return fmt.Sprintf("k%03d", i) }
+	for i := 0; i < K; i++ {
+		c = append(c, fld(name(i), "", false))
+		if i%8 == 7 {
+			c = append(c, end)
+		}
+	}
+	c = append(c, end)
+	// rung i sits at dynamic position K-i, index 61+K-i
+	want := func(n uint, idx int) bool {
+		if full {
+			return true
+		}
+		for _, v := range bnd(n) {
+			if idx >= v-2 && idx <= v+2 {
+				return true
+			}
+		}
+		return false
+	}
+	for i := K - 1; i >= 0; i-- {
+		if want(7, 61+K-i) {
+			c = append(c, fld(name(i), "", false)) // exact match: indexed
+		}
+	}
+	c = append(c, end)
+	for i := K - 1; i >= 0; i-- {
+		if want(4, 61+K-i) {
+			c = append(c, fld(name(i), "s", true)) // never indexed, name by index
+		}
+	}
+	c = append(c, end)
+	added := 0
+	for i := K - 1; i >= 0; i-- {
+		if want(6, 61+K-i+added) {
+			c = append(c, fld(name(i), "w", false)) // incremental indexing, name by index
+			added++
+		}
+	}
+	c = append(c, end)
+	// static table: every entry by full match and by name
+	for i := 0; i < 2; i++ {
+		for _, e := range hpack.VerifH2libStatic() {
+			if i == 0 {
+				c = append(c, fld(e.Name, e.Value, false))
+			} else {
+				c = append(c, fld(e.Name, "q", true))
+			}
+		}
+		c = append(c, end)
+	}
+	out = append(out, c)
+	return out
 }
